@@ -116,6 +116,21 @@ func Run(r *core.Run) {
 		}
 		plans = append(plans, p)
 	}
+	// forged sender indices where the declared old party count exceeds the number of old members taking part
+	// (slots are sized by the one, bounds may be checked against the other)
+	for _, p := range []plan{{"ecdsa-resharing-gap", 0, nil, false}, {"ecdsa-resharing-gap", 2, nil, false}} {
+		cs, _, err := fault.EnumerateFieldCases(p.scn, p.deviator, nil, false, false)
+		if err != nil {
+			fmt.Fprintln(os.Stderr, "INFRASTRUCTURE: honest run of", p.scn, "failed:", err)
+			os.Exit(2)
+		}
+		for _, c := range cs {
+			if strings.HasPrefix(c.Dev.Op, "from-index:") {
+				cases = append(cases, c)
+			}
+		}
+		plans = append(plans, p)
+	}
 	// the same first-round deviations against a party that has not started yet: everything sent to it arrives
 	// before its Start(), which then works through the stored messages (and the next round's checks) itself
 	{
